@@ -105,9 +105,11 @@ def verify_set_thread_map(run, tier, prefix_root='C02'):
                 ctx.assume(f)
             it.assign(stmt.target, iterable.elem(i), fr)
             try:
-                it.exec_block(stmt.body, fr)
-            except (BreakSig, ContinueSig):
-                raise Unsupported('break/continue in the thread-map loop')
+                it.exec_loop_body(stmt.body, fr)
+            except ContinueSig:
+                pass          # `continue` ends the step like falling off the end of the body
+            except BreakSig:
+                raise Unsupported('break in the thread-map loop')
             lt1 = lambda x: z3.If(x == tidf(i), i, lt(x))
             lp1 = lambda x: z3.If(x == pidf(i), i, lp(x))
             for nm, f in table_inv(T.dom, T.val, i + 1, tidf, pidf, lt1):
@@ -231,7 +233,7 @@ def verify_parse_v2(run, tier, wf=True, prefix=None, only=None):
             pos0 = reader.pos
             reads0 = reader.reads
             try:
-                it.exec_block(stmt.body, fr)
+                it.exec_loop_body(stmt.body, fr)
                 exited = False
             except BreakSig:
                 exited = True
